@@ -54,6 +54,10 @@ func boolInt(b bool) int {
 func valsOut(kind int, l []interface{}) []int {
 	r := []int{kind, len(l)}
 	for _, v := range l {
+		if v == nil {
+			r = append(r, -1)
+			continue
+		}
 		r = append(r, v.(int))
 	}
 	return r
@@ -188,6 +192,11 @@ func (r *bufRun) put(n int, cancelled bool) {
 		op[0] = 1
 	}
 	for i := range vals {
+		if r.h.rng.Intn(12) == 0 {
+			vals[i] = nil // a nil value is a value like any other (encoded as -1)
+			op = append(op, -1)
+			continue
+		}
 		vals[i] = r.nextVal
 		op = append(op, r.nextVal)
 		r.nextVal++
@@ -230,6 +239,12 @@ func (r *bufRun) newConsumer() {
 
 func (r *bufRun) get(c int) {
 	ctx, cancel := context.WithCancel(context.Background())
+	if r.h.rng.Intn(5) == 0 {
+		// a context that ends by DEADLINE while the Get is parked (nobody broadcasts afterwards): it must still return
+		cancel()
+		ctx, cancel = context.WithTimeout(context.Background(), time.Duration(1+r.h.rng.Intn(3))*time.Millisecond)
+		r.h.count("get_with_deadline", 1)
+	}
 	o := r.execO([]int{3, c}, func(o *bufOp) []int {
 		v, err := r.cons[c].Get(ctx)
 		if err != nil {
@@ -309,7 +324,11 @@ func (r *bufRun) rangeOp(c int, bounded bool, script []int) {
 				}
 			}()
 			fn := func(index int, value interface{}) bool {
-				visited = append(visited, value.(int))
+				if value == nil {
+					visited = append(visited, -1)
+				} else {
+					visited = append(visited, value.(int))
+				}
 				k := 0 // script exhausted: stop
 				if index < len(script) {
 					k = script[index]
